@@ -1,340 +1,817 @@
-// Copyright 2013 The Go Authors. All rights reserved.
-// Use of this source code is governed by a BSD-style
-// license that can be found in the LICENSE file.
-
 package interp
 
-// Emulated functions that we cannot interpret because they are
-// external or because they use "unsafe" or "reflect" operations.
+// Models of functions that cannot be interpreted from source (no Go body, unsafe, reflect,
+// OS) or whose source-level execution would add nothing to the properties. Every entry is
+// part of the trusted base (DESIGN.md §2.6). Keys are ssa.Function.String().
 
 import (
-	"bytes"
+	"errors"
+	"fmt"
 	"math"
-	"os"
-	"runtime"
-	"sort"
 	"strconv"
 	"strings"
-	"time"
-	"unicode/utf8"
+
+	"golang.org/x/tools/go/ssa"
+
+	"gosym/sym"
 )
 
-type externalFn func(fr *frame, args []value) value
-
-// TODO(adonovan): fix: reflect.Value abstracts an lvalue or an
-// rvalue; Set() causes mutations that can be observed via aliases.
-// We have not captured that correctly here.
-
-// Key strings are from Function.String().
-var externals = make(map[string]externalFn)
+var externals = map[string]externalFn{}
 
 func init() {
-	// That little dot ۰ is an Arabic zero numeral (U+06F0), categories [Nd].
 	for k, v := range map[string]externalFn{
-		"(reflect.Value).Bool":            ext۰reflect۰Value۰Bool,
-		"(reflect.Value).CanAddr":         ext۰reflect۰Value۰CanAddr,
-		"(reflect.Value).CanInterface":    ext۰reflect۰Value۰CanInterface,
-		"(reflect.Value).Elem":            ext۰reflect۰Value۰Elem,
-		"(reflect.Value).Field":           ext۰reflect۰Value۰Field,
-		"(reflect.Value).Float":           ext۰reflect۰Value۰Float,
-		"(reflect.Value).Index":           ext۰reflect۰Value۰Index,
-		"(reflect.Value).Int":             ext۰reflect۰Value۰Int,
-		"(reflect.Value).Interface":       ext۰reflect۰Value۰Interface,
-		"(reflect.Value).IsNil":           ext۰reflect۰Value۰IsNil,
-		"(reflect.Value).IsValid":         ext۰reflect۰Value۰IsValid,
-		"(reflect.Value).Kind":            ext۰reflect۰Value۰Kind,
-		"(reflect.Value).Len":             ext۰reflect۰Value۰Len,
-		"(reflect.Value).MapIndex":        ext۰reflect۰Value۰MapIndex,
-		"(reflect.Value).MapKeys":         ext۰reflect۰Value۰MapKeys,
-		"(reflect.Value).NumField":        ext۰reflect۰Value۰NumField,
-		"(reflect.Value).NumMethod":       ext۰reflect۰Value۰NumMethod,
-		"(reflect.Value).Pointer":         ext۰reflect۰Value۰Pointer,
-		"(reflect.Value).Set":             ext۰reflect۰Value۰Set,
-		"(reflect.Value).String":          ext۰reflect۰Value۰String,
-		"(reflect.Value).Type":            ext۰reflect۰Value۰Type,
-		"(reflect.Value).Uint":            ext۰reflect۰Value۰Uint,
-		"(reflect.error).Error":           ext۰reflect۰error۰Error,
-		"(reflect.rtype).Bits":            ext۰reflect۰rtype۰Bits,
-		"(reflect.rtype).Elem":            ext۰reflect۰rtype۰Elem,
-		"(reflect.rtype).Field":           ext۰reflect۰rtype۰Field,
-		"(reflect.rtype).In":              ext۰reflect۰rtype۰In,
-		"(reflect.rtype).Kind":            ext۰reflect۰rtype۰Kind,
-		"(reflect.rtype).NumField":        ext۰reflect۰rtype۰NumField,
-		"(reflect.rtype).NumIn":           ext۰reflect۰rtype۰NumIn,
-		"(reflect.rtype).NumMethod":       ext۰reflect۰rtype۰NumMethod,
-		"(reflect.rtype).NumOut":          ext۰reflect۰rtype۰NumOut,
-		"(reflect.rtype).Out":             ext۰reflect۰rtype۰Out,
-		"(reflect.rtype).Size":            ext۰reflect۰rtype۰Size,
-		"(reflect.rtype).String":          ext۰reflect۰rtype۰String,
-		"bytes.Equal":                     ext۰bytes۰Equal,
-		"bytes.IndexByte":                 ext۰bytes۰IndexByte,
-		"fmt.Sprint":                      ext۰fmt۰Sprint,
-		"math.Abs":                        ext۰math۰Abs,
-		"math.Copysign":                   ext۰math۰Copysign,
-		"math.Exp":                        ext۰math۰Exp,
-		"math.Float32bits":                ext۰math۰Float32bits,
-		"math.Float32frombits":            ext۰math۰Float32frombits,
-		"math.Float64bits":                ext۰math۰Float64bits,
-		"math.Float64frombits":            ext۰math۰Float64frombits,
-		"math.Inf":                        ext۰math۰Inf,
-		"math.IsNaN":                      ext۰math۰IsNaN,
-		"math.Ldexp":                      ext۰math۰Ldexp,
-		"math.Log":                        ext۰math۰Log,
-		"math.Min":                        ext۰math۰Min,
-		"math.NaN":                        ext۰math۰NaN,
-		"math.Sqrt":                       ext۰math۰Sqrt,
-		"os.Exit":                         ext۰os۰Exit,
-		"os.Getenv":                       ext۰os۰Getenv,
-		"reflect.New":                     ext۰reflect۰New,
-		"reflect.SliceOf":                 ext۰reflect۰SliceOf,
-		"reflect.TypeOf":                  ext۰reflect۰TypeOf,
-		"reflect.ValueOf":                 ext۰reflect۰ValueOf,
-		"reflect.Zero":                    ext۰reflect۰Zero,
-		"runtime.Breakpoint":              ext۰runtime۰Breakpoint,
-		"runtime.GC":                      ext۰runtime۰GC,
-		"runtime.GOMAXPROCS":              ext۰runtime۰GOMAXPROCS,
-		"runtime.GOROOT":                  ext۰runtime۰GOROOT,
-		"runtime.Goexit":                  ext۰runtime۰Goexit,
-		"runtime.Gosched":                 ext۰runtime۰Gosched,
-		"runtime.NumCPU":                  ext۰runtime۰NumCPU,
-		"sort.Float64s":                   ext۰sort۰Float64s,
-		"sort.Ints":                       ext۰sort۰Ints,
-		"sort.Strings":                    ext۰sort۰Strings,
-		"strconv.Atoi":                    ext۰strconv۰Atoi,
-		"strconv.Itoa":                    ext۰strconv۰Itoa,
-		"strconv.FormatFloat":             ext۰strconv۰FormatFloat,
-		"strings.Count":                   ext۰strings۰Count,
-		"strings.EqualFold":               ext۰strings۰EqualFold,
-		"strings.Index":                   ext۰strings۰Index,
-		"strings.IndexByte":               ext۰strings۰IndexByte,
-		"strings.Replace":                 ext۰strings۰Replace,
-		"strings.ToLower":                 ext۰strings۰ToLower,
-		"time.Sleep":                      ext۰time۰Sleep,
-		"unicode/utf8.DecodeRuneInString": ext۰unicode۰utf8۰DecodeRuneInString,
+		// internal/bytealg (assembly on amd64)
+		"internal/bytealg.IndexByte":       extIndexByte,
+		"internal/bytealg.IndexByteString": extIndexByte,
+		"internal/bytealg.Count":           extCountByte,
+		"internal/bytealg.CountString":     extCountByte,
+		"internal/bytealg.Equal":           extBytesEqual,
+		"internal/bytealg.Compare":         extBytesCompare,
+		"internal/bytealg.MakeNoZero":      extMakeNoZero,
+		"internal/bytealg.Index":           extIndex,
+		"internal/bytealg.IndexString":     extIndex,
+		"internal/stringslite.Index":       nil,
+		"bytes.Equal":                      extBytesEqual,
+		"bytes.Compare":                    extBytesCompare,
+		"strings.Compare":                  extBytesCompare,
+		"bytes.IndexByte":                  extIndexByte,
+		"strings.IndexByte":                extIndexByte,
+		"internal/stringslite.IndexByte":   extIndexByte,
+
+		// math
+		"math.Log":             func(fr *frame, a []value) value { return fr.i.mathLog(a[0]) },
+		"math.log":             func(fr *frame, a []value) value { return fr.i.mathLog(a[0]) },
+		"math.Exp":             func(fr *frame, a []value) value { return fr.i.mathExp(a[0]) },
+		"math.exp":             func(fr *frame, a []value) value { return fr.i.mathExp(a[0]) },
+		"math.Pow":             func(fr *frame, a []value) value { return fr.i.mathPow(a[0], a[1]) },
+		"math.pow":             func(fr *frame, a []value) value { return fr.i.mathPow(a[0], a[1]) },
+		"math.Sqrt":            func(fr *frame, a []value) value { return fr.i.mathSqrt(a[0]) },
+		"math.sqrt":            func(fr *frame, a []value) value { return fr.i.mathSqrt(a[0]) },
+		"math.Abs":             func(fr *frame, a []value) value { return fr.i.mathAbs(a[0]) },
+		"math.IsNaN":           func(fr *frame, a []value) value { return fr.i.mathIsNaN(a[0]) },
+		"math.IsInf":           func(fr *frame, a []value) value { return fr.i.mathIsInf(a[0], a[1]) },
+		"math.Max":             func(fr *frame, a []value) value { return fr.i.mathMaxMin(a[0], a[1], true) },
+		"math.Min":             func(fr *frame, a []value) value { return fr.i.mathMaxMin(a[0], a[1], false) },
+		"math.NaN":             func(fr *frame, a []value) value { return math.NaN() },
+		"math.Inf":             func(fr *frame, a []value) value { return math.Inf(int(asInt64(a[0]))) },
+		"math.Float64bits":     func(fr *frame, a []value) value { return math.Float64bits(fr.i.needFloat(a[0], "math.Float64bits")) },
+		"math.Float64frombits": func(fr *frame, a []value) value { return math.Float64frombits(a[0].(uint64)) },
+		"math.Float32bits":     func(fr *frame, a []value) value { return math.Float32bits(a[0].(float32)) },
+		"math.Float32frombits": func(fr *frame, a []value) value { return math.Float32frombits(a[0].(uint32)) },
+		"math.Floor":           extFloor,
+		"math.floor":           extFloor,
+		"math.Ceil":            extCeil,
+		"math.ceil":            extCeil,
+		"math.Log10":           func(fr *frame, a []value) value { return math.Log10(fr.i.needFloat(a[0], "math.Log10")) },
+		"math.Log2":            func(fr *frame, a []value) value { return math.Log2(fr.i.needFloat(a[0], "math.Log2")) },
+		"math.Gamma":           func(fr *frame, a []value) value { return math.Gamma(fr.i.needFloat(a[0], "math.Gamma")) },
+		"math.Lgamma":          func(fr *frame, a []value) value { r, s := math.Lgamma(fr.i.needFloat(a[0], "math.Lgamma")); return tuple{r, s} },
+		"math.Nextafter":       func(fr *frame, a []value) value { return math.Nextafter(fr.i.needFloat(a[0], "Nextafter"), fr.i.needFloat(a[1], "Nextafter")) },
+		"math.Pow10":           func(fr *frame, a []value) value { return math.Pow10(int(asInt64(a[0]))) },
+		"math.Mod":             func(fr *frame, a []value) value { return math.Mod(fr.i.needFloat(a[0], "math.Mod"), fr.i.needFloat(a[1], "math.Mod")) },
+		"math.Trunc":           func(fr *frame, a []value) value { return math.Trunc(fr.i.needFloat(a[0], "math.Trunc")) },
+		"math.Modf":            func(fr *frame, a []value) value { x, y := math.Modf(fr.i.needFloat(a[0], "math.Modf")); return tuple{x, y} },
+		"math.Frexp":           func(fr *frame, a []value) value { x, y := math.Frexp(fr.i.needFloat(a[0], "math.Frexp")); return tuple{x, y} },
+		"math.Ldexp":           func(fr *frame, a []value) value { return math.Ldexp(fr.i.needFloat(a[0], "math.Ldexp"), int(asInt64(a[1]))) },
+		"math.Copysign":        func(fr *frame, a []value) value { return math.Copysign(fr.i.needFloat(a[0], "Copysign"), fr.i.needFloat(a[1], "Copysign")) },
+		"math.Signbit":         func(fr *frame, a []value) value { return math.Signbit(fr.i.needFloat(a[0], "Signbit")) },
+		"math.Hypot":           func(fr *frame, a []value) value { return math.Hypot(fr.i.needFloat(a[0], "Hypot"), fr.i.needFloat(a[1], "Hypot")) },
+		"math.Sin":             func(fr *frame, a []value) value { return math.Sin(fr.i.needFloat(a[0], "Sin")) },
+		"math.Cos":             func(fr *frame, a []value) value { return math.Cos(fr.i.needFloat(a[0], "Cos")) },
+		"math.FMA":             func(fr *frame, a []value) value { return math.FMA(fr.i.needFloat(a[0], "FMA"), fr.i.needFloat(a[1], "FMA"), fr.i.needFloat(a[2], "FMA")) },
+
+		// math/rand: nondeterministic stubs constrained by the documented contract only
+		"math/rand.Intn":    extRandIntn,
+		"math/rand.Int63n":  extRandIntn,
+		"math/rand.Int31n":  extRandIntn,
+		"math/rand.Int":     extRandInt,
+		"math/rand.Int63":   extRandInt,
+		"math/rand.Float64": extRandFloat64,
+		"math/rand.Perm":    extRandPerm,
+		"math/rand.Shuffle": extRandShuffle,
+		"math/rand.Seed":    func(fr *frame, a []value) value { return nil },
+		"math/rand.ExpFloat64":  extRandExp,
+		"math/rand.NormFloat64": extRandNorm,
+
+		// formatting and messages
+		"fmt.Sprintf":  extSprintf,
+		"fmt.Sprint":   extSprint,
+		"fmt.Sprintln": extSprint,
+		"fmt.Errorf":   extErrorf,
+		"fmt.Println":  extNop,
+		"fmt.Printf":   extNop,
+		"fmt.Print":    extNop,
+		"fmt.Fprintf":  extFprintf,
+		"fmt.Fprint":   extFprint,
+		"fmt.Fprintln": extFprint,
+		"log.Print":    extNop,
+		"log.Println":  extNop,
+		"log.Printf":   extNop,
+		"log.Fatal":    extExit1,
+		"log.Fatalf":   extExit1,
+		"os.Exit": func(fr *frame, a []value) value {
+			panic(pathAbort{kind: abExit, code: int(asInt64(a[0])), msg: "os.Exit"})
+		},
+		"github.com/evolbioinfo/goalign/io.PrintMessage":       extNop,
+		"github.com/evolbioinfo/goalign/io.PrintSimpleMessage": extNop,
+		"github.com/evolbioinfo/goalign/io.LogError":           extNop,
+		"github.com/evolbioinfo/goalign/io.LogInfo":            extNop,
+		"github.com/evolbioinfo/goalign/io.LogWarning":         extNop,
+		"github.com/evolbioinfo/goalign/io.ExitWithMessage": func(fr *frame, a []value) value {
+			msg := "io.ExitWithMessage"
+			if e, ok := a[0].(iface); ok {
+				msg += ": " + fr.i.errorString(e)
+			}
+			panic(pathAbort{kind: abExit, code: 1, msg: msg})
+		},
+		"runtime.Caller":     func(fr *frame, a []value) value { return tuple{uintptr(0), "?", 0, false} },
+		"runtime.GOMAXPROCS": func(fr *frame, a []value) value { return 1 },
+		"runtime.NumCPU":     func(fr *frame, a []value) value { return 1 },
+		"runtime.Gosched":    func(fr *frame, a []value) value { fr.i.syncPoint("gosched"); return nil },
+		"runtime.GC":         extNop,
+		"runtime.KeepAlive":  extNop,
+		"time.Sleep":         extNop,
+
+		// sync
+		"(*sync.Mutex).Lock":       func(fr *frame, a []value) value { fr.i.muLock(a[0].(*value)); return nil },
+		"(*sync.Mutex).Unlock":     func(fr *frame, a []value) value { fr.i.muUnlock(a[0].(*value)); return nil },
+		"(*sync.Mutex).TryLock":    nil,
+		"(*sync.RWMutex).Lock":     func(fr *frame, a []value) value { fr.i.muLock(a[0].(*value)); return nil },
+		"(*sync.RWMutex).Unlock":   func(fr *frame, a []value) value { fr.i.muUnlock(a[0].(*value)); return nil },
+		"(*sync.RWMutex).RLock":    func(fr *frame, a []value) value { fr.i.muLock(a[0].(*value)); return nil },
+		"(*sync.RWMutex).RUnlock":  func(fr *frame, a []value) value { fr.i.muUnlock(a[0].(*value)); return nil },
+		"(*sync.WaitGroup).Add":    func(fr *frame, a []value) value { fr.i.wgAdd(a[0].(*value), int(asInt64(a[1]))); return nil },
+		"(*sync.WaitGroup).Done":   func(fr *frame, a []value) value { fr.i.wgAdd(a[0].(*value), -1); return nil },
+		"(*sync.WaitGroup).Wait":   func(fr *frame, a []value) value { fr.i.wgWait(a[0].(*value)); return nil },
+		"(*sync.Pool).Get":         extPoolGet,
+		"(*sync.Pool).Put":         extNop,
+		"(*sync.Once).Do":          extOnceDo,
+		"(*sync.Once).doSlow":      nil,
+		"sync/atomic.LoadInt32":    extAtomicLoad,
+		"sync/atomic.LoadInt64":    extAtomicLoad,
+		"sync/atomic.LoadUint32":   extAtomicLoad,
+		"sync/atomic.LoadUint64":   extAtomicLoad,
+		"sync/atomic.LoadPointer":  extAtomicLoad,
+		"sync/atomic.StoreInt32":   extAtomicStore,
+		"sync/atomic.StoreInt64":   extAtomicStore,
+		"sync/atomic.StoreUint32":  extAtomicStore,
+		"sync/atomic.StoreUint64":  extAtomicStore,
+		"sync/atomic.AddInt32":     extAtomicAdd,
+		"sync/atomic.AddInt64":     extAtomicAdd,
+		"sync/atomic.AddUint32":    extAtomicAdd,
+		"sync/atomic.AddUint64":    extAtomicAdd,
+		"sync/atomic.CompareAndSwapInt32":  extAtomicCAS,
+		"sync/atomic.CompareAndSwapInt64":  extAtomicCAS,
+		"sync/atomic.CompareAndSwapUint32": extAtomicCAS,
+		"sync/atomic.CompareAndSwapUint64": extAtomicCAS,
+		"(*sync/atomic.Int32).Load":  extAtomicTLoad,
+		"(*sync/atomic.Int32).Store": extAtomicTStore,
+		"(*sync/atomic.Int32).Add":   extAtomicTAdd,
+		"(*sync/atomic.Int32).CompareAndSwap": extAtomicTCAS,
+		"(*sync/atomic.Uint32).Load":  extAtomicTLoad,
+		"(*sync/atomic.Uint32).Store": extAtomicTStore,
+		"(*sync/atomic.Bool).Load":  func(fr *frame, a []value) value { return asInt64(extAtomicTLoad(fr, a)) != 0 },
+
+		"(*strings.Builder).copyCheck": extNop,
+		"internal/abi.NoEscape":        func(fr *frame, a []value) value { return a[0] },
+		"internal/abi.Escape":          func(fr *frame, a []value) value { return a[0] },
+
+		// sort (reflect-based swapper)
+		"sort.Slice":       extSortSlice,
+		"sort.SliceStable": extSortSlice,
+
+		// errors
+		"errors.Is": extErrorsIs,
 	} {
-		externals[k] = v
-	}
-}
-
-func ext۰bytes۰Equal(fr *frame, args []value) value {
-	// func Equal(a, b []byte) bool
-	a := args[0].([]value)
-	b := args[1].([]value)
-	if len(a) != len(b) {
-		return false
-	}
-	for i := range a {
-		if a[i] != b[i] {
-			return false
+		if v != nil {
+			externals[k] = v
 		}
 	}
-	return true
 }
 
-func ext۰bytes۰IndexByte(fr *frame, args []value) value {
-	// func IndexByte(s []byte, c byte) int
-	s := args[0].([]value)
-	c := args[1].(byte)
-	for i, b := range s {
-		if b.(byte) == c {
-			return i
+func extNop(fr *frame, args []value) value { return nil }
+
+func extExit1(fr *frame, args []value) value {
+	panic(pathAbort{kind: abExit, code: 1, msg: "log.Fatal"})
+}
+
+func (i *interpreter) needFloat(v value, what string) float64 {
+	switch x := v.(type) {
+	case float64:
+		return x
+	case float32:
+		return float64(x)
+	case *FV:
+		if f, ok := i.fConcrete(x); ok {
+			return f
 		}
 	}
-	return -1
+	i.unsupported(what + " of a symbolic float")
+	return 0
 }
 
-func ext۰math۰Float64frombits(fr *frame, args []value) value {
-	return math.Float64frombits(args[0].(uint64))
-}
-
-func ext۰math۰Float64bits(fr *frame, args []value) value {
-	return math.Float64bits(args[0].(float64))
-}
-
-func ext۰math۰Float32frombits(fr *frame, args []value) value {
-	return math.Float32frombits(args[0].(uint32))
-}
-
-func ext۰math۰Abs(fr *frame, args []value) value {
-	return math.Abs(args[0].(float64))
-}
-
-func ext۰math۰Copysign(fr *frame, args []value) value {
-	return math.Copysign(args[0].(float64), args[1].(float64))
-}
-
-func ext۰math۰Exp(fr *frame, args []value) value {
-	return math.Exp(args[0].(float64))
-}
-
-func ext۰math۰Float32bits(fr *frame, args []value) value {
-	return math.Float32bits(args[0].(float32))
-}
-
-func ext۰math۰Min(fr *frame, args []value) value {
-	return math.Min(args[0].(float64), args[1].(float64))
-}
-
-func ext۰math۰NaN(fr *frame, args []value) value {
-	return math.NaN()
-}
-
-func ext۰math۰IsNaN(fr *frame, args []value) value {
-	return math.IsNaN(args[0].(float64))
-}
-
-func ext۰math۰Inf(fr *frame, args []value) value {
-	return math.Inf(args[0].(int))
-}
-
-func ext۰math۰Ldexp(fr *frame, args []value) value {
-	return math.Ldexp(args[0].(float64), args[1].(int))
-}
-
-func ext۰math۰Log(fr *frame, args []value) value {
-	return math.Log(args[0].(float64))
-}
-
-func ext۰math۰Sqrt(fr *frame, args []value) value {
-	return math.Sqrt(args[0].(float64))
-}
-
-func ext۰runtime۰Breakpoint(fr *frame, args []value) value {
-	runtime.Breakpoint()
-	return nil
-}
-
-func ext۰sort۰Ints(fr *frame, args []value) value {
-	x := args[0].([]value)
-	sort.Slice(x, func(i, j int) bool {
-		return x[i].(int) < x[j].(int)
-	})
-	return nil
-}
-func ext۰sort۰Strings(fr *frame, args []value) value {
-	x := args[0].([]value)
-	sort.Slice(x, func(i, j int) bool {
-		return x[i].(string) < x[j].(string)
-	})
-	return nil
-}
-func ext۰sort۰Float64s(fr *frame, args []value) value {
-	x := args[0].([]value)
-	sort.Slice(x, func(i, j int) bool {
-		return x[i].(float64) < x[j].(float64)
-	})
-	return nil
-}
-
-func ext۰strconv۰Atoi(fr *frame, args []value) value {
-	i, e := strconv.Atoi(args[0].(string))
-	if e != nil {
-		return tuple{i, iface{fr.i.runtimeErrorString, e.Error()}}
+func extFloor(fr *frame, a []value) value {
+	i := fr.i
+	if f, ok := a[0].(float64); ok {
+		return math.Floor(f)
 	}
-	return tuple{i, iface{}}
-}
-func ext۰strconv۰Itoa(fr *frame, args []value) value {
-	return strconv.Itoa(args[0].(int))
-}
-func ext۰strconv۰FormatFloat(fr *frame, args []value) value {
-	return strconv.FormatFloat(args[0].(float64), args[1].(byte), args[2].(int), args[3].(int))
+	x := i.toFV(a[0])
+	c := i.ctx
+	return i.fSimp(&FV{Nan: x.Nan, Inf: x.Inf, V: c.Ite(x.Inf, x.V, c.ToReal(c.ToInt(x.V)))})
 }
 
-func ext۰strings۰Count(fr *frame, args []value) value {
-	return strings.Count(args[0].(string), args[1].(string))
-}
-
-func ext۰strings۰EqualFold(fr *frame, args []value) value {
-	return strings.EqualFold(args[0].(string), args[1].(string))
-}
-func ext۰strings۰IndexByte(fr *frame, args []value) value {
-	return strings.IndexByte(args[0].(string), args[1].(byte))
-}
-
-func ext۰strings۰Index(fr *frame, args []value) value {
-	return strings.Index(args[0].(string), args[1].(string))
-}
-
-func ext۰strings۰Replace(fr *frame, args []value) value {
-	// func Replace(s, old, new string, n int) string
-	s := args[0].(string)
-	new := args[1].(string)
-	old := args[2].(string)
-	n := args[3].(int)
-	return strings.Replace(s, old, new, n)
-}
-
-func ext۰strings۰ToLower(fr *frame, args []value) value {
-	return strings.ToLower(args[0].(string))
-}
-
-func ext۰runtime۰GOMAXPROCS(fr *frame, args []value) value {
-	// Ignore args[0]; don't let the interpreted program
-	// set the interpreter's GOMAXPROCS!
-	return runtime.GOMAXPROCS(0)
-}
-
-func ext۰runtime۰Goexit(fr *frame, args []value) value {
-	// TODO(adonovan): don't kill the interpreter's main goroutine.
-	runtime.Goexit()
-	return nil
-}
-
-func ext۰runtime۰GOROOT(fr *frame, args []value) value {
-	return runtime.GOROOT()
-}
-
-func ext۰runtime۰GC(fr *frame, args []value) value {
-	runtime.GC()
-	return nil
-}
-
-func ext۰runtime۰Gosched(fr *frame, args []value) value {
-	runtime.Gosched()
-	return nil
-}
-
-func ext۰runtime۰NumCPU(fr *frame, args []value) value {
-	return runtime.NumCPU()
-}
-
-func ext۰time۰Sleep(fr *frame, args []value) value {
-	time.Sleep(time.Duration(args[0].(int64)))
-	return nil
-}
-
-func ext۰os۰Getenv(fr *frame, args []value) value {
-	name := args[0].(string)
-	switch name {
-	case "GOSSAINTERP":
-		return "1"
+func extCeil(fr *frame, a []value) value {
+	i := fr.i
+	if f, ok := a[0].(float64); ok {
+		return math.Ceil(f)
 	}
-	return os.Getenv(name)
+	x := i.toFV(a[0])
+	c := i.ctx
+	return i.fSimp(&FV{Nan: x.Nan, Inf: x.Inf, V: c.Ite(x.Inf, x.V, c.Neg(c.ToReal(c.ToInt(c.Neg(x.V)))))})
 }
 
-func ext۰os۰Exit(fr *frame, args []value) value {
-	panic(exitPanic(args[0].(int)))
+// ---------------------------------------------------------------- bytes
+
+func seqBytes(v value) []value {
+	switch s := v.(type) {
+	case []value:
+		return s
+	case string, sstr:
+		return strBytes(s)
+	}
+	panic(fmt.Sprintf("seqBytes: %T", v))
 }
 
-func ext۰unicode۰utf8۰DecodeRuneInString(fr *frame, args []value) value {
-	r, n := utf8.DecodeRuneInString(args[0].(string))
-	return tuple{r, n}
-}
-
-// A fake function for turning an arbitrary value into a string.
-// Handles only the cases needed by the tests.
-// Uses same logic as 'print' built-in.
-func ext۰fmt۰Sprint(fr *frame, args []value) value {
-	buf := new(bytes.Buffer)
-	wasStr := false
-	for i, arg := range args[0].([]value) {
-		x := arg.(iface).v
-		_, isStr := x.(string)
-		if i > 0 && !wasStr && !isStr {
-			buf.WriteByte(' ')
+// extIndexByte: first index of c in s or -1, as a term when bytes are symbolic.
+func extIndexByte(fr *frame, args []value) value {
+	i := fr.i
+	s := seqBytes(args[0])
+	c := args[1]
+	var res value = -1
+	for k := len(s) - 1; k >= 0; k-- {
+		eq := i.equals(nil, s[k], c)
+		switch e := eq.(type) {
+		case bool:
+			if e {
+				res = k
+			}
+		case *sym.Term:
+			r, _ := i.iteVal(e, k, res)
+			res = r
 		}
-		wasStr = isStr
-		buf.WriteString(toString(x))
 	}
-	return buf.String()
+	return res
 }
+
+func extCountByte(fr *frame, args []value) value {
+	i := fr.i
+	s := seqBytes(args[0])
+	c := args[1]
+	var res value = 0
+	for k := range s {
+		eq := i.equals(nil, s[k], c)
+		switch e := eq.(type) {
+		case bool:
+			if e {
+				res = i.binop(tokADD, tInt, res, 1)
+			}
+		case *sym.Term:
+			inc := i.binop(tokADD, tInt, res, 1)
+			r, _ := i.iteVal(e, inc, res)
+			res = r
+		}
+	}
+	return res
+}
+
+func extBytesEqual(fr *frame, args []value) value {
+	return fr.i.strEq(mkStr(seqBytes(args[0])), mkStr(seqBytes(args[1])))
+}
+
+func extBytesCompare(fr *frame, args []value) value {
+	i := fr.i
+	a, b := mkStr(seqBytes(args[0])), mkStr(seqBytes(args[1]))
+	lt := i.strLess(a, b, false)
+	eq := i.strEq(a, b)
+	if l, ok := lt.(bool); ok {
+		if e, ok := eq.(bool); ok {
+			switch {
+			case l:
+				return -1
+			case e:
+				return 0
+			}
+			return 1
+		}
+	}
+	r1, _ := i.iteVal(i.toBoolTerm(eq), 0, 1)
+	r2, _ := i.iteVal(i.toBoolTerm(lt), -1, r1)
+	return r2
+}
+
+func extMakeNoZero(fr *frame, args []value) value {
+	n := fr.i.needInt(args[0], "MakeNoZero")
+	out := make([]value, n)
+	for k := range out {
+		out[k] = uint8(0)
+	}
+	return out
+}
+
+// extIndex: substring search; concrete operands only (symbolic ones use the Go fallbacks).
+func extIndex(fr *frame, args []value) value {
+	i := fr.i
+	a, b := mkStr(seqBytes(args[0])), mkStr(seqBytes(args[1]))
+	as, ok1 := a.(string)
+	bs, ok2 := b.(string)
+	if ok1 && ok2 {
+		return strings.Index(as, bs)
+	}
+	// generic: first position where all bytes match
+	ab, bb := strBytes(a), strBytes(b)
+	var res value = -1
+	for k := len(ab) - len(bb); k >= 0; k-- {
+		eq := i.strEq(mkStr(ab[k:k+len(bb)]), b)
+		switch e := eq.(type) {
+		case bool:
+			if e {
+				res = k
+			}
+		case *sym.Term:
+			r, _ := i.iteVal(e, k, res)
+			res = r
+		}
+	}
+	return res
+}
+
+// ---------------------------------------------------------------- rand
+
+func (i *interpreter) randVar(kind string, s sym.Sort) *sym.Term {
+	i.noSpec("rand")
+	t := i.ctx.Var(i.freshName("rnd"), s)
+	i.tape = append(i.tape, tapeVar{kind: kind, term: t, name: t.Name})
+	return t
+}
+
+func extRandIntn(fr *frame, args []value) value {
+	i := fr.i
+	n := args[0]
+	w := 64
+	switch n.(type) {
+	case int32:
+		w = 32
+	}
+	nt := i.lift(n)
+	if i.decide(i.ctx.BvSle(nt, i.ctx.BVC(w, 0))) {
+		panic(targetPanic{i.strPanic("invalid argument to Intn")})
+	}
+	r := i.randVar("rand.int", sym.BV(w))
+	i.addPC(i.ctx.BvUlt(r, nt))
+	return i.termToGoDyn(r, n, true)
+}
+
+func extRandInt(fr *frame, args []value) value {
+	i := fr.i
+	r := i.randVar("rand.int", sym.BV(64))
+	i.addPC(i.ctx.BvSle(i.ctx.BVC(64, 0), r))
+	return r
+}
+
+func extRandFloat64(fr *frame, args []value) value {
+	i := fr.i
+	r := i.randVar("rand.f64", sym.Real)
+	i.addPC(i.ctx.Le(i.ctx.RealI(0), r))
+	i.addPC(i.ctx.Lt(r, i.ctx.RealI(1)))
+	return i.finite(r)
+}
+
+func extRandExp(fr *frame, args []value) value {
+	i := fr.i
+	r := i.randVar("rand.f64", sym.Real)
+	i.addPC(i.ctx.Lt(i.ctx.RealI(0), r))
+	return i.finite(r)
+}
+
+func extRandNorm(fr *frame, args []value) value {
+	i := fr.i
+	r := i.randVar("rand.f64", sym.Real)
+	return i.finite(r)
+}
+
+// rand.Perm(n): n values in [0,n), pairwise distinct.
+func extRandPerm(fr *frame, args []value) value {
+	i := fr.i
+	n := int(i.needInt(args[0], "rand.Perm"))
+	if n < 0 {
+		panic(targetPanic{i.strPanic("invalid argument to Perm")})
+	}
+	out := make([]value, n)
+	ts := make([]*sym.Term, n)
+	for k := 0; k < n; k++ {
+		r := i.randVar("rand.int", sym.BV(64))
+		i.addPC(i.ctx.BvUlt(r, i.ctx.BVC(64, uint64(n))))
+		for j := 0; j < k; j++ {
+			i.addPC(i.ctx.Not(i.ctx.Eq(r, ts[j])))
+		}
+		ts[k] = r
+		out[k] = r
+	}
+	return out
+}
+
+// rand.Shuffle(n, swap): Fisher-Yates with nondeterministic draws, as documented.
+func extRandShuffle(fr *frame, args []value) value {
+	i := fr.i
+	n := int(i.needInt(args[0], "rand.Shuffle"))
+	if n < 0 {
+		panic(targetPanic{i.strPanic("invalid argument to Shuffle")})
+	}
+	for k := n - 1; k > 0; k-- {
+		r := i.randVar("rand.int", sym.BV(64))
+		i.addPC(i.ctx.BvUlt(r, i.ctx.BVC(64, uint64(k+1))))
+		j := i.concretize(r, false, "shuffle index")
+		call(i, fr, 0, args[1], []value{k, int(j)})
+	}
+	return nil
+}
+
+// ---------------------------------------------------------------- fmt
+
+// toNative converts an interpreter value to a Go value for fmt.
+func (i *interpreter) toNative(v value) (interface{}, bool) {
+	switch x := v.(type) {
+	case nil:
+		return nil, true
+	case bool, int, int8, int16, int32, int64, uint, uint8, uint16, uint32, uint64, uintptr, float32, float64, string, complex128:
+		return x, true
+	case *sym.Term:
+		if x.IsConst() {
+			if x.Sort.K == sym.KBool {
+				return x.U == 1, true
+			}
+			return x.SignedVal(), true
+		}
+		return nil, false
+	case *FV:
+		if f, ok := i.fConcrete(x); ok {
+			return f, true
+		}
+		return nil, false
+	case sstr:
+		return nil, false
+	case iface:
+		if x.t == nil {
+			return nil, true
+		}
+		if o, ok := x.v.(*opaque); ok {
+			return errors.New(o.what), true
+		}
+		// error or Stringer
+		if s := i.errorString(x); s != "" {
+			return errors.New(s), true
+		}
+		if s, ok := i.stringerString(x); ok {
+			return s, true
+		}
+		return i.toNative(x.v)
+	case []value:
+		out := make([]interface{}, len(x))
+		for k := range x {
+			n, ok := i.toNative(x[k])
+			if !ok {
+				return nil, false
+			}
+			out[k] = n
+		}
+		// byte slices print as such
+		allBytes := len(x) > 0
+		for _, e := range out {
+			if _, ok := e.(uint8); !ok {
+				allBytes = false
+			}
+		}
+		if allBytes {
+			bs := make([]byte, len(out))
+			for k, e := range out {
+				bs[k] = e.(uint8)
+			}
+			return bs, true
+		}
+		return out, true
+	case array:
+		return i.toNative([]value(x))
+	case *value:
+		if x == nil {
+			return nil, true
+		}
+		return fmt.Sprintf("%p", x), true
+	case structure:
+		out := make([]interface{}, len(x))
+		for k := range x {
+			n, ok := i.toNative(x[k])
+			if !ok {
+				return nil, false
+			}
+			out[k] = n
+		}
+		return out, true
+	}
+	return fmt.Sprintf("<%T>", v), true
+}
+
+func (i *interpreter) stringerString(itf iface) (out string, ok bool) {
+	defer func() {
+		if r := recover(); r != nil {
+			if isInternal(r) {
+				panic(r)
+			}
+			ok = false
+		}
+	}()
+	ms := i.prog.MethodSets.MethodSet(itf.t)
+	sel := ms.Lookup(nil, "String")
+	if sel == nil {
+		return "", false
+	}
+	fn := i.prog.MethodValue(sel)
+	if fn == nil || fn.Signature.Params().Len() != 0 {
+		return "", false
+	}
+	r := call(i, nil, 0, fn, []value{itf.v})
+	s, isS := r.(string)
+	return s, isS
+}
+
+func (i *interpreter) nativeArgs(vs []value) ([]interface{}, bool) {
+	out := make([]interface{}, len(vs))
+	for k, v := range vs {
+		n, ok := i.toNative(v)
+		if !ok {
+			return nil, false
+		}
+		out[k] = n
+	}
+	return out, true
+}
+
+func extSprintf(fr *frame, args []value) value {
+	i := fr.i
+	format := i.goString(args[0], "fmt.Sprintf format")
+	na, ok := i.nativeArgs(args[1].([]value))
+	if !ok {
+		return i.symSprintf(format, args[1].([]value))
+	}
+	return fmt.Sprintf(format, na...)
+}
+
+// symSprintf supports the simple verbs %s %c %v %d with symbolic strings/bytes by splicing.
+func (i *interpreter) symSprintf(format string, args []value) value {
+	var out []value
+	ai := 0
+	for k := 0; k < len(format); k++ {
+		ch := format[k]
+		if ch != '%' || k+1 >= len(format) {
+			out = append(out, ch)
+			continue
+		}
+		k++
+		verb := format[k]
+		if verb == '%' {
+			out = append(out, uint8('%'))
+			continue
+		}
+		if ai >= len(args) {
+			i.unsupported("fmt.Sprintf: missing argument with symbolic operands")
+		}
+		a := args[ai].(iface).v
+		ai++
+		switch verb {
+		case 's', 'v', 'c', 'd':
+			switch x := a.(type) {
+			case string, sstr:
+				if verb == 'd' {
+					i.unsupported("fmt.Sprintf %d of string")
+				}
+				out = append(out, strBytes(x)...)
+			case *sym.Term:
+				if verb == 'c' && x.Sort.K == sym.KBV {
+					out = append(out, value(i.ctx.Extract(x, 7, 0)))
+				} else {
+					i.unsupported("fmt.Sprintf of a symbolic number")
+				}
+			default:
+				n, ok := i.toNative(a)
+				if !ok {
+					i.unsupported("fmt.Sprintf with symbolic operand")
+				}
+				out = append(out, strBytes(fmt.Sprintf("%"+string(verb), n))...)
+			}
+		default:
+			i.unsupported("fmt.Sprintf verb %" + string(verb) + " with symbolic operands")
+		}
+	}
+	return mkStr(out)
+}
+
+func extSprint(fr *frame, args []value) value {
+	i := fr.i
+	na, ok := i.nativeArgs(args[0].([]value))
+	if !ok {
+		i.unsupported("fmt.Sprint with symbolic operand")
+	}
+	if strings.HasSuffix(fr.fn.Name(), "ln") {
+		return fmt.Sprintln(na...)
+	}
+	return fmt.Sprint(na...)
+}
+
+// newError builds an interpreted error value through the real errors.New.
+func (i *interpreter) newError(msg string) value {
+	pkg := i.prog.ImportedPackage("errors")
+	if pkg != nil {
+		if fn := pkg.Func("New"); fn != nil && fn.Blocks != nil {
+			return callSSA(i, nil, 0, fn, []value{msg}, nil)
+		}
+	}
+	return iface{t: tString, v: &opaque{what: msg}}
+}
+
+func extErrorf(fr *frame, args []value) value {
+	i := fr.i
+	format, okf := args[0].(string)
+	if okf {
+		if na, ok := i.nativeArgs(args[1].([]value)); ok {
+			return i.newError(fmt.Errorf(format, na...).Error())
+		}
+	}
+	// symbolic operands: the message content is never the subject of a property
+	return i.newError("error with symbolic operands: " + fmt.Sprint(args[0]))
+}
+
+// writeTo sends bytes to an io.Writer held in an interface value by calling its Write method.
+func (i *interpreter) writeTo(fr *frame, w value, s value) {
+	itf, ok := w.(iface)
+	if !ok || itf.t == nil {
+		panic(targetPanic{i.rtErr("invalid memory address or nil pointer dereference")})
+	}
+	if strings.Contains(itf.t.String(), "os.File") {
+		return // stdout/stderr: output is not the subject
+	}
+	ms := i.prog.MethodSets.MethodSet(itf.t)
+	sel := ms.Lookup(nil, "Write")
+	if sel == nil {
+		i.unsupported("fmt.Fprint to a writer without Write")
+	}
+	fn := i.prog.MethodValue(sel)
+	call(i, fr, 0, fn, []value{itf.v, append([]value{}, strBytes(s)...)})
+}
+
+func extFprintf(fr *frame, args []value) value {
+	i := fr.i
+	s := extSprintf(fr, args[1:])
+	i.writeTo(fr, args[0], s)
+	return tuple{strLen(s), iface{}}
+}
+
+func extFprint(fr *frame, args []value) value {
+	i := fr.i
+	s := extSprint(fr, args[1:])
+	i.writeTo(fr, args[0], s)
+	return tuple{strLen(s), iface{}}
+}
+
+// ---------------------------------------------------------------- sync helpers
+
+func extPoolGet(fr *frame, args []value) value {
+	// sync.Pool{New: f}: call New when set, else nil (a pool may always miss)
+	p := args[0].(*value)
+	st := (*p).(structure)
+	switch f := st[len(st)-1].(type) {
+	case *closure:
+		if f != nil {
+			return call(fr.i, fr, 0, f, nil)
+		}
+	case *ssa.Function:
+		if f != nil {
+			return call(fr.i, fr, 0, f, nil)
+		}
+	}
+	return iface{}
+}
+
+func extOnceDo(fr *frame, args []value) value {
+	i := fr.i
+	p := args[0].(*value)
+	if i.onces == nil {
+		i.onces = map[*value]bool{}
+	}
+	if i.onces[p] {
+		return nil
+	}
+	i.onces[p] = true
+	if i.trailOn {
+		i.trail = append(i.trail, trailEnt{undo: func() { delete(i.onces, p) }})
+	}
+	call(i, fr, 0, args[1], nil)
+	return nil
+}
+
+func extAtomicLoad(fr *frame, a []value) value {
+	fr.i.syncPoint("atomic")
+	return fr.i.load(nil, a[0].(*value))
+}
+func extAtomicStore(fr *frame, a []value) value {
+	fr.i.syncPoint("atomic")
+	fr.i.store(nil, a[0].(*value), a[1])
+	return nil
+}
+func extAtomicAdd(fr *frame, a []value) value {
+	i := fr.i
+	i.syncPoint("atomic")
+	p := a[0].(*value)
+	n := i.binop(tokADD, nil, *p, a[1])
+	i.setCell(p, n)
+	return n
+}
+func extAtomicCAS(fr *frame, a []value) value {
+	i := fr.i
+	i.syncPoint("atomic")
+	p := a[0].(*value)
+	if i.decide(i.equals(nil, *p, a[1])) {
+		i.setCell(p, a[2])
+		return true
+	}
+	return false
+}
+func atomicField(a []value) *value {
+	p := a[0].(*value)
+	st := (*p).(structure)
+	return &st[len(st)-1]
+}
+func extAtomicTLoad(fr *frame, a []value) value {
+	fr.i.syncPoint("atomic")
+	return *atomicField(a)
+}
+func extAtomicTStore(fr *frame, a []value) value {
+	fr.i.syncPoint("atomic")
+	fr.i.setCell(atomicField(a), a[1])
+	return nil
+}
+func extAtomicTAdd(fr *frame, a []value) value {
+	i := fr.i
+	i.syncPoint("atomic")
+	p := atomicField(a)
+	n := i.binop(tokADD, nil, *p, a[1])
+	i.setCell(p, n)
+	return n
+}
+func extAtomicTCAS(fr *frame, a []value) value {
+	i := fr.i
+	i.syncPoint("atomic")
+	p := atomicField(a)
+	if i.decide(i.equals(nil, *p, a[1])) {
+		i.setCell(p, a[2])
+		return true
+	}
+	return false
+}
+
+// ---------------------------------------------------------------- sort.Slice
+
+// extSortSlice sorts with a stable insertion sort driven by the interpreted less function
+// (one admissible behaviour of sort.Slice; stability is what sort.SliceStable promises).
+func extSortSlice(fr *frame, args []value) value {
+	i := fr.i
+	itf := args[0].(iface)
+	s, ok := itf.v.([]value)
+	if !ok {
+		i.unsupported("sort.Slice on a non-slice")
+	}
+	less := args[1]
+	n := len(s)
+	for a := 1; a < n; a++ {
+		for b := a; b > 0; b-- {
+			r := call(i, fr, 0, less, []value{b, b - 1})
+			if !i.decide(r) {
+				break
+			}
+			x, y := copyVal(s[b]), copyVal(s[b-1])
+			i.storeRec(&s[b], y)
+			i.storeRec(&s[b-1], x)
+		}
+	}
+	return nil
+}
+
+func extErrorsIs(fr *frame, args []value) value {
+	i := fr.i
+	a, b := args[0].(iface), args[1].(iface)
+	r := i.equals(nil, a, b)
+	if rb, ok := r.(bool); ok {
+		return rb
+	}
+	return i.decide(r)
+}
+
+var _ = strconv.Itoa
